@@ -1033,8 +1033,12 @@ def main(chk: Check):
             handle_failures(chk, c["sc"], fails, stats, "gen")
     if chk.disagreements and not chk.failing:
         # failing-input search: same generator, more scenes, implementation + oracle only
-        for _ in range(chk.n(40, 300)):
-            sc = gen_scene(rng)
+        for j in range(chk.n(56, 300)):
+            fam = [0, 3, 1, 3, 2, 3, 4][j % 7]          # every scene family of the main loop takes part in the search
+            sc = gen_scene(rng, crowded=(fam == 1), border_band=(fam == 2), elongated=(fam == 3),
+                           empty=(["first", "middle", "last"][(j // 7) % 3] if fam == 4 else None))
+            if fam == 2:
+                sc["refinement"] = None
             res, _ = run_impl(sc)
             chk.tag("search_scene")
             if res[0] == "raise":
